@@ -110,7 +110,7 @@ done:
 	{Name: "doc-blank-lines", Doc: "// $M has a long doc comment.\n//\n// Second paragraph after a blank comment line:\n//   - item one\n//   - item two\n//\n// Deprecated: third paragraph of $M.", Body: plainBody},
 	{Name: "doc-go-directive", Doc: "// $M must not be inlined.\n//\n//go:noinline", Body: plainBody},
 	{Name: "doc-nolint-directive", Doc: "// $M is long on purpose.\n//\n//nolint:gocyclo,funlen // accepted", Body: plainBody},
-	{Name: "receiver-renamed", Recv: "q", Body: "\t_ = q.Resolver\n" + plainBody},
+	{Name: "receiver-renamed", Recv: "q", Body: "\t_ = q.$ROOT\n" + plainBody},
 	{Name: "ctx-param-renamed", Ctx: "c", Body: "\t_ = c.Err()\n" + plainBody},
 	{Name: "terminator-in-string", Body: `	ls := "*/ $M /*"
 	_ = ls
@@ -150,7 +150,7 @@ var decls = []DeclElem{
 	{Name: "helper-func", Group: "decls", Use: "_ = helper$F(1)",
 		Decls: "// helper$F is a user helper.\nfunc helper$F(x int) int {\n\tif x > 0 {\n\t\treturn x\n\t}\n\treturn -x\n}"},
 	{Name: "method-on-resolver", Group: "decls", Use: "_ = r.userHelper$F()",
-		Decls: "func (r *Resolver) userHelper$F() string { return \"h$F\" }\n\n// userLower$F is not a schema field.\nfunc (r *queryResolver) userLower$F(s string) string {\n\tfor range s {\n\t}\n\treturn s\n}"},
+		Decls: "func (r *$ROOT) userHelper$F() string { return \"h$F\" }\n\n// userLower$F is not a schema field.\nfunc (r *$QRES) userLower$F(s string) string {\n\tfor range s {\n\t}\n\treturn s\n}"},
 	{Name: "type-decl", Group: "decls", Use: "_ = userType$F{}",
 		Decls: "// userType$F is a user type.\ntype userType$F struct {\n\tA int\n\tB map[string]struct{ C []int }\n}\n\ntype (\n\tuserAlias$F = userType$F\n\tuserIface$F interface{ M$F() }\n)"},
 	{Name: "var-decl", Group: "decls", Use: "_ = userVar$F",
